@@ -160,7 +160,8 @@ META["C10"] = dict(
     level_text="Idempotence monitor on every accepted result of generated parsers (same grammar as C01) reached through six "
     "channels (parse_object, parse_args, parse_string, parse_path, --cfg file, defaults only): validate(C) must pass, "
     "parse_object(C) must return an equal configuration (type for type), from the original and from another working "
-    "directory, and dump(parse_string(dump(C))) must be byte-identical to dump(C) in yaml and json.",
+    "directory, and dump(parse_string(dump(C))) must be byte-identical to dump(C) in yaml and json. One case in six uses "
+    "class-typed options with prefix-related names (model, model_ema, ...) that all carry defaults with init_args.",
     level_note="Trusted: the comparator. The dump-parse-dump clause is judged only when the re-parsed configuration equals C "
     "(otherwise the difference is C01's and is counted, not double-reported).",
     shards=g(4, 16),
@@ -178,6 +179,7 @@ META["C10"] = dict(
         "st.result_kind.enum": g(50, 500), "st.result_kind.tuple": g(50, 500), "st.result_kind.set": g(30, 300),
         "st.result_kind.reg": g(50, 500), "st.result_kind.dataclass": g(30, 300), "st.result_kind.class": g(10, 100),
         "st.result_kind.dict": g(50, 500), "st.result_kind.union": g(50, 500),
+        "st.prefix_named_class_options_with_defaults": g(40, 400),
     },
     assumptions=["provenance keys are not configuration", "SecretStr is masked in dumps by design (C20) and excluded"],
 )
@@ -266,6 +268,7 @@ META["C04"] = dict(
     "non-trivial = at least one source besides the declared defaults.",
     gates={
         "mon.fold_comparisons": g(1500, 20000),
+        "mon.fold_comparisons_repeated_parse": g(500, 6000),
         "st.source.default_file": g(400, 4000), "st.source.env_config": g(100, 1000), "st.source.env_var": g(150, 1500),
         "st.source.argv_plain": g(400, 4000), "st.source.argv_append": g(100, 1000), "st.source.argv_dictitem": g(100, 1000),
         "st.source.argv_cfg_file": g(100, 1000), "st.source.argv_cfg_string": g(100, 1000),
@@ -356,6 +359,8 @@ META["C12"] = dict(
         "mon.required_omitted": g(100, 1000),
         "st.kind.function": g(200, 2000), "st.kind.class": g(200, 2000), "st.kind.functions_list": g(100, 1000),
         "st.kind.functions_dict": g(30, 300), "st.kind.async_function": g(50, 500),
+        "st.kind.class_in_list": g(100, 1000), "st.kind.class_in_dict": g(100, 1000),
+        "st.config_with_settings_for_several_methods": g(60, 600), "st.nested_class_config_for_chosen_and_other_methods": g(8, 80),
         "st.param.poskw.required": g(100, 1000), "st.param.poskw.default": g(300, 3000), "st.param.kwonly.default": g(100, 1000),
         "st.param.kwonly.required": g(30, 300), "st.param.poskw.optional-nodefault": g(20, 200),
     },
@@ -371,15 +376,18 @@ META["C09"] = dict(
     "process, on parsers with config arguments, subclass arguments with lazy defaults (one name a prefix of another), "
     "Optional classes, dataclasses, class groups, links, subcommands and default config files, in both exit_on_error modes; "
     "every step's outcome on the long-lived parser is compared with the same step on a freshly built identical parser.",
-    level_note="Both sides run the same code, so wording changes cannot alarm. Process-global contamination that also affects a "
-    "fresh parser of the same process is only visible from the step at which the two sides diverge; a forked pristine "
-    "reference is not used. Inputs for dump/validate/instantiate come from a fresh parser so both sides get equal arguments.",
-    shards=g(4, 16),
+    level_note="All sides run the same code, so wording changes cannot alarm. State kept outside the parser (context variables, "
+    "module globals, caches) would influence a fresh parser of the same process just as much, so every step is also compared "
+    "with its outcome in a process without any history: a reference server forked before the shard's first parse forks one child "
+    "per distinct (variant, exit_on_error, step) which runs the step on a never-used parser. Inputs for dump/validate/instantiate "
+    "come from a fresh parser so all sides get equal arguments.",
+    shards=g(8, 16),
     budget=g(45, 300),
-    technique="step-by-step differential of a reused parser against freshly built identical parsers over generated operation histories",
+    technique="step-by-step differential of a reused parser against freshly built identical parsers and against a forked history-free process, over generated operation histories",
     rule="a case is (parser variant, exit_on_error, the operation history); distinct by hash; non-trivial = history of >=2 steps.",
     gates={
         "mon.steps_compared": g(1500, 20000),
+        "mon.steps_compared_with_pristine_process": g(1500, 20000),
         "st.failing_steps": g(400, 5000),
         "st.op.parse_args": g(300, 3000), "st.op.parse_args-fail": g(200, 2000), "st.op.print_config": g(30, 300), "st.op.print_config-fail": g(20, 200),
         "st.op.help": g(30, 300), "st.op.parse_object": g(50, 500), "st.op.parse_string": g(30, 300), "st.op.parse_env": g(30, 300),
